@@ -19,11 +19,15 @@ def run_one(m):
         if s.count(m["old"]) != m.get("count", 1):
             return m, "STALE", "pattern occurs %d times (expected %d)" % (s.count(m["old"]), m.get("count", 1))
         s = s.replace(m["old"], m["new"], 1) if not m.get("all") else s.replace(m["old"], m["new"])
+        if m.get("post_old"):
+            if s.count(m["post_old"]) != 1:
+                return m, "STALE", "post pattern"
+            s = s.replace(m["post_old"], m["post_new"], 1)
         open(p, "w").write(s)
         env = dict(os.environ, FRG_REPO=tmp, FRG_NO_EVIDENCE="1")
         res = []
         for prop in m["props"]:
-            r = subprocess.run([os.path.join(VERIF, "check"), prop], env=env, stdout=subprocess.PIPE,
+            r = subprocess.run([os.path.join(VERIF, "check"), prop, "--tier", m.get("tier", "quick")], env=env, stdout=subprocess.PIPE,
                                stderr=subprocess.STDOUT, text=True)
             res.append((prop, r.returncode, r.stdout))
         verdicts = []
